@@ -1,15 +1,628 @@
 /-
   C18 — Bin geometry helpers are mutually inverse and fail only with OverlapError.
-  Property theorems only; helper lemmas live in `Synphot/Lemmas/`.
+  Property theorems only; helper lemmas live in `Synphot/Lemmas/Binning.lean` and `Synphot/Lemmas/PixRange.lean`.
+  Everything is stated for every ordered field `K` (plus `[FloorRing K]` where `np.modf` is used), about the
+  branch-for-branch model `Core/Binning.lean`, `Core/PixRange.lean` that the correspondence check ties to
+  `synphot/binning.py`.
 -/
 import Synphot.Lemmas.Binning
+import Synphot.Lemmas.PixRange
+import Mathlib.Tactic.NormNum
+import Mathlib.Algebra.Order.Field.Rat
+import Mathlib.Algebra.Order.Floor.Ring
+import Mathlib.Data.Rat.Floor
+
+set_option linter.unusedSectionVars false
+set_option linter.unusedSimpArgs false
 
 namespace Synphot.C18
 open Synphot
 variable {K : Type} [Field K] [LinearOrder K] [IsStrictOrderedRing K]
 
+/-! ## calculate_bin_edges / calculate_bin_widths / calculate_bin_centers -/
+
 /-- centres recomputed from the edges reproduce the input (every length ≥ 2, any order, any values) -/
 theorem centers_edges_inverse (c e : List K) (h : binEdges c = .ok e) : binCenters e = .ok c :=
   binCenters_binEdges c e h
+
+/-- `calculate_bin_edges` succeeds exactly on arrays of at least two centres … -/
+theorem edges_ok_iff (c : List K) : (∃ e, binEdges c = .ok e) ↔ 2 ≤ c.length := binEdges_ok_iff c
+
+/-- … and raises SynphotError (nothing else) on shorter ones -/
+theorem edges_short (c : List K) (h : c.length < 2) : binEdges c = .error .synphotError :=
+  binEdges_short c h
+
+/-- n centres give n+1 edges -/
+theorem edges_length (c e : List K) (h : binEdges c = .ok e) : e.length = c.length + 1 := by
+  rcases c with _ | ⟨a, _ | ⟨b, t⟩⟩
+  · simp [binEdges, mids] at h
+  · simp [binEdges, mids] at h
+  · rw [binEdges_cons_cons] at h
+    injection h with h
+    subst h
+    simp [edgesAux_length]
+
+/-- interior edges are the midpoints of neighbouring centres; the first and the last edge make the first and
+the last bin symmetric about its centre -/
+theorem edges_spec (c e : List K) (h : binEdges c = .ok e) :
+    ∃ (h2 : 2 ≤ c.length) (hl : e.length = c.length + 1),
+      (∀ i (hi : i + 1 < c.length), e[i + 1] = (c[i] + c[i + 1]) / 2) ∧
+      c[0] - e[0] = e[1] - c[0] ∧
+      e[c.length] - c[c.length - 1] = c[c.length - 1] - e[c.length - 1] := by
+  have hl := edges_length c e h
+  rcases c with _ | ⟨a, _ | ⟨b, t⟩⟩
+  · simp [binEdges, mids] at h
+  · simp [binEdges, mids] at h
+  · refine ⟨by simp, hl, ?_⟩
+    rw [binEdges_cons_cons] at h
+    injection h with h
+    subst h
+    have hmid : ∀ i (hi : i + 1 < (a :: b :: t).length),
+        (edgesAux a (b :: t))[i]? = some (((a :: b :: t)[i] + (a :: b :: t)[i + 1]) / 2) := by
+      intro i hi
+      have := edgesAux_getElem? (b :: t) a i ((a :: b :: t)[i + 1]) ((a :: b :: t)[i])
+        (by simp) (by simp)
+      rw [this]; congr 1; ring
+    refine ⟨?_, ?_, ?_⟩
+    · intro i hi
+      have := hmid i hi
+      rw [List.getElem_cons_succ]
+      exact (List.getElem_eq_iff _).mpr this
+    · have := hmid 0 (by simp)
+      have h1 : (edgesAux a (b :: t))[0]'(by simp [edgesAux_length]) = (a + b) / 2 := by
+        exact (List.getElem_eq_iff _).mpr (by simpa using this)
+      simp only [List.getElem_cons_zero, List.getElem_cons_succ, h1]
+      ring
+    · have hlen : (edgesAux a (b :: t)).length = t.length + 2 := edgesAux_length a b t
+      have hm : (edgesAux a (b :: t))[(b :: t).length - 1]? =
+          some ((edgesAux a (b :: t))[t.length]'(by omega)) := by
+        simp only [List.length_cons, Nat.add_sub_cancel]
+        exact List.getElem?_eq_getElem _
+      have hx : (b :: t).getLast? = some ((b :: t)[t.length]'(by simp)) := by
+        rw [List.getLast?_eq_getElem?]
+        simp only [List.length_cons, Nat.add_sub_cancel]
+        exact List.getElem?_eq_getElem _
+      have hlast := edgesAux_last (b :: t) a _ _ hx hm
+      have h1 : (edgesAux a (b :: t))[t.length + 1]'(by omega) =
+          2 * (b :: t)[t.length]'(by simp) - (edgesAux a (b :: t))[t.length]'(by omega) :=
+        (List.getElem_eq_iff _).mpr (by simpa using hlast)
+      simp only [List.length_cons, Nat.add_sub_cancel, List.getElem_cons_succ, h1]
+      ring
+
+
+/-- edges of strictly increasing centres are strictly increasing -/
+theorem edges_strictAsc (c e : List K) (hc : StrictAsc c) (h : binEdges c = .ok e) : StrictAsc e :=
+  binEdges_strictAsc c e hc h
+
+/-- edges of strictly decreasing centres are strictly decreasing -/
+theorem edges_strictDesc (c e : List K) (hc : StrictDesc c) (h : binEdges c = .ok e) : StrictDesc e :=
+  binEdges_strictDesc c e hc h
+
+/-- `calculate_bin_widths`: n+1 edges give n widths; fewer than two edges is a SynphotError -/
+theorem widths_length (e w : List K) (h : binWidths e = .ok w) : w.length = e.length - 1 := by
+  unfold binWidths at h
+  split_ifs at h
+  injection h with h
+  subst h
+  exact absDiffs_length e
+
+theorem widths_short (e : List K) (h : e.length < 2) : binWidths e = .error .synphotError := by
+  simp [binWidths, h]
+
+/-- `calculate_bin_centers`: n+1 edges give n centres; fewer than two edges is a SynphotError -/
+theorem centers_length (e c : List K) (h : binCenters e = .ok c) : c.length = e.length - 1 := by
+  rcases e with _ | ⟨a, _ | ⟨b, t⟩⟩
+  · simp [binCenters] at h
+  · simp [binCenters] at h
+  · simp only [binCenters] at h
+    injection h with h
+    subst h
+    simp [centersLoop_length]
+
+theorem centers_short (e : List K) (h : e.length < 2) : binCenters e = .error .synphotError := by
+  rcases e with _ | ⟨a, _ | ⟨b, t⟩⟩
+  · simp [binCenters]
+  · simp [binCenters]
+  · simp only [List.length_cons] at h; omega
+
+/-- the widths of the bins of n ≥ 2 centres exist and there are n of them -/
+theorem widths_of_edges_ok (c e : List K) (h : binEdges c = .ok e) :
+    ∃ w, binWidths e = .ok w ∧ w.length = c.length := by
+  have hl := edges_length c e h
+  have h2 := (edges_ok_iff c).mp ⟨e, h⟩
+  refine ⟨absDiffs e, ?_, ?_⟩
+  · simp only [binWidths]
+    rw [if_neg (by omega)]
+  · rw [absDiffs_length, hl]; simp
+
+/-- all widths are positive for strictly monotone centres, either order -/
+theorem widths_pos (c e w : List K) (hc : StrictAsc c ∨ StrictDesc c) (he : binEdges c = .ok e)
+    (hw : binWidths e = .ok w) : ∀ x ∈ w, 0 < x := by
+  unfold binWidths at hw
+  split_ifs at hw
+  injection hw with hw
+  subst hw
+  rcases hc with hc | hc
+  · exact absDiffs_pos_of_strictAsc e (binEdges_strictAsc c e hc he)
+  · exact absDiffs_pos_of_strictDesc e (binEdges_strictDesc c e hc he)
+
+/-- the widths sum to the covered span |last edge − first edge| (strictly monotone centres, either order) -/
+theorem widths_sum (c e w : List K) (hc : StrictAsc c ∨ StrictDesc c) (he : binEdges c = .ok e)
+    (hw : binWidths e = .ok w) : w.sum = |e.getLastD 0 - e.headD 0| := by
+  unfold binWidths at hw
+  split_ifs at hw
+  injection hw with hw
+  subst hw
+  rcases e with _ | ⟨a, t⟩
+  · simp [absDiffs]
+  · simp only [List.getLastD_cons, List.headD_cons]
+    rcases hc with hc | hc
+    · have hs := binEdges_strictAsc c _ hc he
+      rw [absDiffs_sum_of_strictAsc t a hs, abs_of_nonneg]
+      have := strictAsc_head_le_last t a hs
+      linarith
+    · have hs := binEdges_strictDesc c _ hc he
+      rw [absDiffs_sum_of_strictDesc t a hs, abs_of_nonpos]
+      · ring
+      · have := strictDesc_last_le_head t a hs
+        linarith
+
+/-! non-vacuity: a concrete irregular array, both orders -/
+example : binEdges ([1, 2, 4] : List ℚ) = .ok [1/2, 3/2, 3, 5] := by
+  simp [binEdges, mids]; norm_num
+example : StrictAsc ([1, 2, 4] : List ℚ) := by norm_num [StrictAsc]
+example : binWidths ([1/2, 3/2, 3, 5] : List ℚ) = .ok [1, 3/2, 2] := by
+  simp [binWidths, absDiffs]; norm_num [abs_of_pos]
+example : binEdges ([4, 2, 1] : List ℚ) = .ok [5, 3, 3/2, 1/2] := by
+  simp [binEdges, mids]; norm_num
+example : StrictDesc ([4, 2, 1] : List ℚ) := by norm_num [StrictDesc]
+
+
+/-! ## pixel_range -/
+
+/-- the limits `minwave`, `maxwave` that `pixel_range` checks against are the first and the last edge
+returned by `calculate_bin_edges` -/
+theorem outer_edges_are_bin_edges (bins e : List K) (h : binEdges bins = .ok e) :
+    e.headD 0 = minWave bins ∧ e.getLastD 0 = maxWave bins := by
+  obtain ⟨h2, hl, hmid, hfirst, hlast⟩ := edges_spec bins e h
+  have key : ∀ (l : List K) i (hi : i < l.length), l.getD i 0 = l[i] := by
+    intro l i hi
+    rw [List.getD_eq_getElem?_getD, List.getElem?_eq_getElem hi]; rfl
+  constructor
+  · have e0 : e.headD 0 = e[0] := by
+      rw [← key e 0 (by omega)]
+      cases e with
+      | nil => simp at hl
+      | cons x t => simp
+    have := hmid 0 (by omega)
+    simp only [Nat.zero_add] at this
+    rw [e0]
+    unfold minWave
+    rw [key bins 0 (by omega), key bins 1 (by omega)]
+    rw [this] at hfirst
+    linarith
+  · have e0 : e.getLastD 0 = e[bins.length] := by
+      rw [← key e bins.length (by omega), List.getLastD_eq_getLast?, List.getLast?_eq_getElem?, hl,
+        List.getD_eq_getElem?_getD]
+      simp
+    have := hmid (bins.length - 2) (by omega)
+    have e1 : bins.length - 2 + 1 = bins.length - 1 := by omega
+    simp only [e1] at this
+    rw [e0]
+    unfold maxWave
+    rw [key bins (bins.length - 1) (by omega), key bins (bins.length - 2) (by omega)]
+    rw [this] at hlast
+    linarith
+
+/-- (a)+(c) a range inside `[minwave, maxwave]` is counted, in every mode, and the count is ≥ 0: every
+`searchsorted` index on the padded bins satisfies `1 ≤ ind ≤ n+1`, so `bins[ind]`, `bins[ind-1]` exist without
+wrap-around and differ -/
+theorem pixel_range_ok (bins : List K) (hasc : StrictAsc bins) (h2 : 2 ≤ bins.length) (a b : K) (mode : Mode)
+    (hlo : minWave bins ≤ min a b) (hhi : max a b ≤ maxWave bins) :
+    ∃ v, pixelRange bins a b mode = .ok v ∧ 0 ≤ v := by
+  rw [pixelRange_asc bins hasc h2, if_neg (by rw [not_or, not_lt, not_lt]; exact ⟨hlo, hhi⟩)]
+  by_cases hab : a = b
+  · rw [if_pos hab]; exact ⟨0, rfl, le_refl _⟩
+  · rw [if_neg hab]
+    refine ⟨_, rfl, pixCount_nonneg _ _ _ (min_le_max) ?_ ?_ mode⟩
+    · exact br_padded bins hasc h2 _ hlo (le_trans min_le_max hhi)
+    · exact br_padded bins hasc h2 _ (le_trans hlo min_le_max) hhi
+
+/-- (b) a range exceeding the outer edges is an OverlapError -/
+theorem pixel_range_out_of_bounds (bins : List K) (hasc : StrictAsc bins) (h2 : 2 ≤ bins.length) (a b : K)
+    (mode : Mode) (h : min a b < minWave bins ∨ maxWave bins < max a b) :
+    pixelRange bins a b mode = .error .overlapError := by
+  rw [pixelRange_asc bins hasc h2, if_pos h]
+
+/-- after mode validation `pixel_range` raises nothing but OverlapError (no IndexError, ZeroDivisionError, NaN) -/
+theorem pixel_range_only_overlapError (bins : List K) (hasc : StrictAsc bins) (h2 : 2 ≤ bins.length) (a b : K)
+    (mode : Mode) (e : Err) (he : pixelRange bins a b mode = .error e) : e = .overlapError := by
+  rw [pixelRange_asc bins hasc h2] at he
+  split_ifs at he
+  · injection he with he; exact he.symm
+
+/-- (c) pixel counts are never negative -/
+theorem pixel_range_nonneg (bins : List K) (hasc : StrictAsc bins) (h2 : 2 ≤ bins.length) (a b v : K)
+    (mode : Mode) (hv : pixelRange bins a b mode = .ok v) : 0 ≤ v := by
+  by_cases hout : min a b < minWave bins ∨ maxWave bins < max a b
+  · rw [pixel_range_out_of_bounds bins hasc h2 a b mode hout] at hv; cases hv
+  · rw [not_or, not_lt, not_lt] at hout
+    obtain ⟨v', hv', h0⟩ := pixel_range_ok bins hasc h2 a b mode hout.1 hout.2
+    rw [hv] at hv'; injection hv' with hv'; rw [hv']; exact h0
+
+/-- (d) equal limits give 0 -/
+theorem pixel_range_equal_limits (bins : List K) (hasc : StrictAsc bins) (h2 : 2 ≤ bins.length) (a : K)
+    (mode : Mode) (hlo : minWave bins ≤ a) (hhi : a ≤ maxWave bins) : pixelRange bins a a mode = .ok 0 := by
+  rw [pixelRange_asc_eq bins hasc h2, if_neg (by rw [not_or, not_lt, not_lt]; exact ⟨hlo, hhi⟩)]
+
+/-- (e) reversing the two limits gives the same result (no hypothesis on the bins) -/
+theorem pixel_range_swap (bins : List K) (a b : K) (mode : Mode) :
+    pixelRange bins a b mode = pixelRange bins b a mode := pixelRange_swap bins a b mode
+
+/-- (f) 'min' never counts more and 'max' never fewer pixels than the exact mode -/
+theorem pixel_range_min_le_none_le_max (bins : List K) (hasc : StrictAsc bins) (h2 : 2 ≤ bins.length) (a b : K)
+    (vmin vnone vmax : K) (h1 : pixelRange bins a b .min = .ok vmin) (h3 : pixelRange bins a b .none = .ok vnone)
+    (h4 : pixelRange bins a b .max = .ok vmax) : vmin ≤ vnone ∧ vnone ≤ vmax := by
+  rw [pixelRange_asc bins hasc h2] at h1 h3 h4
+  by_cases hout : min a b < minWave bins ∨ max a b > maxWave bins
+  · rw [if_pos hout] at h1; cases h1
+  · rw [if_neg hout] at h1 h3 h4
+    by_cases hab : a = b
+    · rw [if_pos hab] at h1 h3 h4
+      injection h1 with h1; injection h3 with h3; injection h4 with h4
+      subst h1; subst h3; subst h4; exact ⟨le_refl _, le_refl _⟩
+    · rw [if_neg hab] at h1 h3 h4
+      injection h1 with h1; injection h3 with h3; injection h4 with h4
+      subst h1; subst h3; subst h4
+      rw [not_or, not_lt, not_lt] at hout
+      have hb1 := br_padded bins hasc h2 _ hout.1 (le_trans min_le_max hout.2)
+      have hb2 := br_padded bins hasc h2 _ (le_trans hout.1 min_le_max) hout.2
+      exact ⟨pixCount_min_le_none _ _ _ min_le_max hb1 hb2, pixCount_none_le_max _ _ _ hb1 hb2⟩
+
+
+/-! ## either order of the bins -/
+
+/-- both functions reverse descending bins first: on strictly decreasing input they behave exactly as on
+the reversed (strictly increasing) array, so every theorem below about ascending bins applies -/
+theorem descending_bins_as_reversed (bins : List K) (hd : StrictDesc bins) (h2 : 2 ≤ bins.length) :
+    StrictAsc bins.reverse ∧ 2 ≤ bins.reverse.length ∧
+    (∀ a b mode, pixelRange bins a b mode = pixelRange bins.reverse a b mode) ∧
+    (∀ [FloorRing K] cen npix mode, waveRange bins cen npix mode = waveRange bins.reverse cen npix mode) :=
+  ⟨(strictAsc_reverse bins).mpr hd, by simpa using h2, fun a b mode => pixelRange_desc bins hd h2 a b mode,
+    fun cen npix mode => waveRange_desc bins hd h2 cen npix mode⟩
+
+/-! ## wave_range -/
+section
+variable [FloorRing K]
+
+/-- a centre inside `[bins[0], bins[-1]]` always has a fractional index (no IndexError, no 0/0) -/
+theorem frac_index_ok (bins : List K) (hasc : StrictAsc bins) (h2 : 2 ≤ bins.length) (cen : K)
+    (hc1 : bins.getD 0 0 ≤ cen) (hc2 : cen ≤ bins.getD (bins.length - 1) 0) :
+    ∃ fi, fracIndex bins cen = .ok fi := fracIndex_ok bins hasc (by omega) cen hc1 hc2
+
+
+/-- the fractional index is the geometric pixel coordinate of the centre: `i + (cen - b[i]) / (b[i+1] - b[i])`
+for neighbouring centres `b[i] ≤ cen ≤ b[i+1]` (`np.argmin(np.abs(·))` is a minimiser) -/
+theorem frac_index_spec (bins : List K) (hasc : StrictAsc bins) (h2 : 2 ≤ bins.length) (cen : K)
+    (hc1 : bins.getD 0 0 ≤ cen) (hc2 : cen ≤ bins.getD (bins.length - 1) 0) :
+    ∃ i : Nat, i + 1 < bins.length ∧ bins.getD i 0 ≤ cen ∧ cen ≤ bins.getD (i + 1) 0 ∧
+      fracIndex bins cen = .ok ((i : K) + (cen - bins.getD i 0) / (bins.getD (i + 1) 0 - bins.getD i 0)) :=
+  fracIndex_spec bins hasc h2 cen hc1 hc2
+
+/-- hence `0 ≤ frac_ind ≤ n - 1` -/
+theorem frac_index_bounds (bins : List K) (hasc : StrictAsc bins) (h2 : 2 ≤ bins.length) (cen fi : K)
+    (hc1 : bins.getD 0 0 ≤ cen) (hc2 : cen ≤ bins.getD (bins.length - 1) 0)
+    (hfi : fracIndex bins cen = .ok fi) : 0 ≤ fi ∧ fi ≤ (bins.length : K) - 1 := by
+  obtain ⟨i, hi, a, b, e⟩ := fracIndex_spec bins hasc h2 cen hc1 hc2
+  rw [hfi] at e
+  injection e with e
+  subst e
+  have d := strictAsc_getD_lt bins hasc i (i + 1) (by omega) hi 0
+  have q0 : 0 ≤ (cen - bins.getD i 0) / (bins.getD (i + 1) 0 - bins.getD i 0) :=
+    div_nonneg (by linarith) (by linarith)
+  have q1 : (cen - bins.getD i 0) / (bins.getD (i + 1) 0 - bins.getD i 0) ≤ 1 := by
+    rw [div_le_one (by linarith)]; linarith
+  have hi' : ((i + 1 + 1 : Nat) : K) ≤ (bins.length : K) := Nat.cast_le.mpr (by omega)
+  push_cast at hi'
+  have : (0 : K) ≤ (i : K) := Nat.cast_nonneg i
+  constructor <;> linarith
+
+/-- requests that fit (`npix ≥ 0`, centre inside the bins, both fractional limits inside `[-1/2, n-1/2]`): in all
+four modes the result is a pair (no IndexError / NaN / SynphotError), both limits lie inside the outer bin edges,
+and the pair is ordered — in mode 'min' provided at least one pixel is requested (see
+`wave_range_min_npix0_unordered` for why that proviso is needed) -/
+theorem wave_range_fits (bins : List K) (hasc : StrictAsc bins) (h2 : 2 ≤ bins.length) (cen fi : K) (npix : Int)
+    (mode : Mode) (hnp : 0 ≤ npix)
+    (hc1 : bins.getD 0 0 ≤ cen) (hc2 : cen ≤ bins.getD (bins.length - 1) 0)
+    (hfi : fracIndex bins cen = .ok fi)
+    (hx1 : -(1/2) ≤ fi - (npix : K) / 2) (hx2 : fi + (npix : K) / 2 ≤ (bins.length : K) - 1/2) :
+    ∃ w1 w2, waveRange bins cen npix mode = .ok (w1, w2) ∧
+      (mode ≠ .min ∨ 1 ≤ npix → w1 ≤ w2) ∧
+      minWave bins ≤ w1 ∧ w1 ≤ maxWave bins ∧ minWave bins ≤ w2 ∧ w2 ≤ maxWave bins := by
+  rw [waveRange_eq_tail bins hasc h2 cen fi npix hc1 hc2 hfi hx1 hx2 mode]
+  have hnpK : (0 : K) ≤ (npix : K) := by exact_mod_cast hnp
+  have h12 : fi - (npix : K) / 2 ≤ fi + (npix : K) / 2 := by linarith
+  cases mode with
+  | round =>
+    obtain ⟨w1, w2, e, a, b, c⟩ := waveTail_round_ok bins hasc h2 _ _ hx1 h12 hx2
+    exact ⟨w1, w2, e, fun _ => a, b, by linarith, by linarith, c⟩
+  | max =>
+    obtain ⟨w1, w2, e, a, b, c⟩ := waveTail_max_ok bins hasc h2 _ _ hx1 h12 hx2
+    exact ⟨w1, w2, e, fun _ => a, b, by linarith, by linarith, c⟩
+  | none =>
+    obtain ⟨w1, w2, e, a, b, c⟩ := waveTail_none_ok bins hasc h2 _ _ hx1 h12 hx2
+    exact ⟨w1, w2, e, fun _ => a, b, by linarith, by linarith, c⟩
+  | min =>
+    obtain ⟨w1, w2, e, a, b, c, d, f⟩ := waveTail_min_ok bins hasc h2 _ _ hx1 h12 hx2
+    refine ⟨w1, w2, e, ?_, b, c, d, f⟩
+    intro hm
+    rcases hm with hm | hm
+    · exact absurd rfl hm
+    · apply a
+      have : (1 : K) ≤ (npix : K) := by exact_mod_cast hm
+      linarith
+
+/-- requests that do not fit raise OverlapError -/
+theorem wave_range_nofit (bins : List K) (hasc : StrictAsc bins) (h2 : 2 ≤ bins.length) (cen : K) (npix : Int)
+    (mode : Mode) :
+    (cen < bins.getD 0 0 ∨ cen > bins.getD (bins.length - 1) 0 →
+      waveRange bins cen npix mode = .error .overlapError) ∧
+    (∀ fi, bins.getD 0 0 ≤ cen → cen ≤ bins.getD (bins.length - 1) 0 → fracIndex bins cen = .ok fi →
+      (fi - (npix : K) / 2 < -(1/2) ∨ fi + (npix : K) / 2 > (bins.length : K) - 1/2) →
+      waveRange bins cen npix mode = .error .overlapError) := by
+  refine ⟨waveRange_cen_outside bins hasc (by omega) cen npix mode, ?_⟩
+  intro fi hc1 hc2 hfi hx
+  by_cases hlow : fi - (npix : K) / 2 < -(1/2)
+  · exact waveRange_low_outside bins hasc (by omega) cen fi npix mode hc1 hc2 hfi hlow
+  · rcases hx with hx | hx
+    · exact absurd hx hlow
+    · exact waveRange_high_outside bins hasc (by omega) cen fi npix mode hc1 hc2 hfi (not_lt.mp hlow) hx
+
+/-- on valid bins `wave_range` (after argument validation, `npix ≥ 0`) either returns a pair or raises
+OverlapError — never IndexError, NaN, ZeroDivisionError or SynphotError -/
+theorem wave_range_only_overlapError (bins : List K) (hasc : StrictAsc bins) (h2 : 2 ≤ bins.length) (cen : K)
+    (npix : Int) (mode : Mode) (hnp : 0 ≤ npix) (e : Err) (he : waveRange bins cen npix mode = .error e) :
+    e = .overlapError := by
+  by_cases hc : cen < bins.getD 0 0 ∨ cen > bins.getD (bins.length - 1) 0
+  · rw [(wave_range_nofit bins hasc h2 cen npix mode).1 hc] at he
+    injection he with he; exact he.symm
+  · rw [not_or, not_lt, not_lt] at hc
+    obtain ⟨fi, hfi⟩ := frac_index_ok bins hasc h2 cen hc.1 hc.2
+    by_cases hx : fi - (npix : K) / 2 < -(1/2) ∨ fi + (npix : K) / 2 > (bins.length : K) - 1/2
+    · rw [(wave_range_nofit bins hasc h2 cen npix mode).2 fi hc.1 hc.2 hfi hx] at he
+      injection he with he; exact he.symm
+    · rw [not_or, not_lt, not_lt] at hx
+      obtain ⟨w1, w2, hw, _⟩ := wave_range_fits bins hasc h2 cen fi npix mode hnp hc.1 hc.2 hfi hx.1 hx.2
+      rw [hw] at he; cases he
+
+/-- argument validation: an unknown mode string is a SynphotError … -/
+theorem wave_range_invalid_mode (bins : List K) (cen : K) (isInt : Bool) (npix : Int) (s : String)
+    (h : Mode.ofString? s = Option.none) : waveRangeTop bins cen isInt npix s = .error .synphotError := by
+  simp [waveRangeTop, h]
+
+/-- … and so is a non-integer or negative pixel count, whatever the mode string -/
+theorem wave_range_invalid_npix (bins : List K) (cen : K) (isInt : Bool) (npix : Int) (s : String)
+    (h : isInt = false ∨ npix < 0) : waveRangeTop bins cen isInt npix s = .error .synphotError := by
+  unfold waveRangeTop
+  cases Mode.ofString? s with
+  | none => rfl
+  | some m =>
+    have : (!isInt) = true ∨ npix < 0 := by
+      rcases h with h | h
+      · left; simp [h]
+      · right; exact h
+    simp only [this, if_true]
+
+/-- valid arguments reach the computation proper -/
+theorem wave_range_valid_args (bins : List K) (cen : K) (npix : Int) (s : String) (m : Mode)
+    (h : Mode.ofString? s = some m) (hnp : 0 ≤ npix) :
+    waveRangeTop bins cen true npix s = waveRange bins cen npix m := by
+  have : ¬ ((!true) = true ∨ npix < 0) := by simp; exact hnp
+  simp only [waveRangeTop, h, this, if_false]
+
+end
+
+theorem pixel_range_invalid_mode (bins : List K) (a b : K) (s : String)
+    (h : Mode.ofString? s = Option.none) : pixelRangeTop bins a b s = .error .synphotError := by
+  simp [pixelRangeTop, h]
+
+theorem pixel_range_valid_mode (bins : List K) (a b : K) (s : String) (m : Mode)
+    (h : Mode.ofString? s = some m) : pixelRangeTop bins a b s = pixelRange bins a b m := by
+  simp [pixelRangeTop, h]
+
+
+/-! ## the returned limits are bin edges; round trip through pixel_range -/
+
+/-- the bin edges of `calculate_bin_edges` are exactly the midpoints of neighbouring padded centres -/
+theorem padded_midpoints_are_edges (bins e : List K) (h : binEdges bins = .ok e) (j : Nat)
+    (hj : j ≤ bins.length) : e.getD j 0 = midP (padded bins) j := by
+  obtain ⟨h2, hl, hmid, hfirst, hlast⟩ := edges_spec bins e h
+  obtain ⟨o1, o2⟩ := outer_edges_are_bin_edges bins e h
+  have key : ∀ (l : List K) i (hi : i < l.length), l.getD i 0 = l[i] := by
+    intro l i hi
+    rw [List.getD_eq_getElem?_getD, List.getElem?_eq_getElem hi]; rfl
+  rcases Nat.eq_zero_or_pos j with h0 | h0
+  · subst h0
+    rw [midP_padded_zero bins h2, ← o1]
+    cases e with
+    | nil => simp at hl
+    | cons x t => simp
+  · rcases Nat.lt_or_eq_of_le hj with hlt | heq
+    · obtain ⟨k, rfl⟩ : ∃ k, j = k + 1 := ⟨j - 1, by omega⟩
+      rw [midP_padded_succ bins k (by omega), key e (k + 1) (by omega), hmid k (by omega)]
+      unfold midP
+      rw [key bins k (by omega), key bins (k + 1) (by omega)]
+    · subst heq
+      rw [midP_padded_last bins h2, ← o2, List.getLastD_eq_getLast?, List.getLast?_eq_getElem?, hl,
+        List.getD_eq_getElem?_getD]
+      simp
+
+section
+variable [FloorRing K]
+
+/-- modes 'min' and 'max' (any `npix ≥ 0`) and mode 'round' (`npix ≥ 1`): the two returned limits are
+bin edges as computed by `calculate_bin_edges` -/
+theorem wave_range_limits_are_edges (bins e : List K) (hasc : StrictAsc bins) (h2 : 2 ≤ bins.length)
+    (he : binEdges bins = .ok e) (cen fi : K) (npix : Int) (mode : Mode)
+    (hm : (mode = .round ∧ 1 ≤ npix) ∨ ((mode = .min ∨ mode = .max) ∧ 0 ≤ npix))
+    (hc1 : bins.getD 0 0 ≤ cen) (hc2 : cen ≤ bins.getD (bins.length - 1) 0)
+    (hfi : fracIndex bins cen = .ok fi)
+    (hx1 : -(1/2) ≤ fi - (npix : K) / 2) (hx2 : fi + (npix : K) / 2 ≤ (bins.length : K) - 1/2) :
+    ∃ w1 w2, waveRange bins cen npix mode = .ok (w1, w2) ∧ w1 ∈ e ∧ w2 ∈ e := by
+  have hl := edges_length bins e he
+  have hmem : ∀ j, j ≤ bins.length → midP (padded bins) j ∈ e := by
+    intro j hj
+    rw [← padded_midpoints_are_edges bins e he j hj, List.getD_eq_getElem?_getD,
+      List.getElem?_eq_getElem (by omega : j < e.length)]
+    exact List.getElem_mem _
+  rw [waveRange_eq_tail bins hasc h2 cen fi npix hc1 hc2 hfi hx1 hx2 mode]
+  rcases hm with ⟨rfl, hnp⟩ | ⟨hm, hnp⟩
+  · have e2 : fi + (npix : K) / 2 = fi - (npix : K) / 2 + (npix : K) := by ring
+    rw [e2] at hx2 ⊢
+    obtain ⟨j1, j2, a2, hrel, hw⟩ := waveTail_round_edges bins h2 _ npix hnp hx1 hx2
+    exact ⟨_, _, hw, hmem j1 (by omega), hmem j2 a2⟩
+  · have hnpK : (0 : K) ≤ (npix : K) := by exact_mod_cast hnp
+    obtain ⟨j1, j2, a1, a2, hw⟩ := waveTail_minmax_edges bins _ _ hx1 (by linarith) hx2 mode hm
+    exact ⟨_, _, hw, hmem j1 a1, hmem j2 a2⟩
+
+/-- mode 'round', `npix ≥ 1`: the range returned by `wave_range` covers exactly `npix` pixels
+according to `pixel_range(..., 'round')` -/
+theorem round_trip_round (bins : List K) (hasc : StrictAsc bins) (h2 : 2 ≤ bins.length) (cen fi : K) (npix : Int)
+    (hnp : 1 ≤ npix) (hc1 : bins.getD 0 0 ≤ cen) (hc2 : cen ≤ bins.getD (bins.length - 1) 0)
+    (hfi : fracIndex bins cen = .ok fi)
+    (hx1 : -(1/2) ≤ fi - (npix : K) / 2) (hx2 : fi + (npix : K) / 2 ≤ (bins.length : K) - 1/2) :
+    ∃ w1 w2, waveRange bins cen npix .round = .ok (w1, w2) ∧
+      pixelRange bins w1 w2 .round = .ok (npix : K) := by
+  rw [waveRange_eq_tail bins hasc h2 cen fi npix hc1 hc2 hfi hx1 hx2 .round]
+  have e2 : fi + (npix : K) / 2 = fi - (npix : K) / 2 + (npix : K) := by ring
+  rw [e2] at hx2 ⊢
+  obtain ⟨j1, j2, a2, hrel, hw⟩ := waveTail_round_edges bins h2 _ npix hnp hx1 hx2
+  refine ⟨_, _, hw, ?_⟩
+  rw [pixelRange_round_edges bins hasc h2 j1 j2 (by omega) a2]
+  have : (j2 : Int) - (j1 : Int) = npix := by omega
+  rw [this]
+
+/-- mode 'none', `npix ≥ 0`: the range returned by `wave_range` covers exactly `npix` pixels according
+to `pixel_range(..., 'none')` -/
+theorem round_trip_none (bins : List K) (hasc : StrictAsc bins) (h2 : 2 ≤ bins.length) (cen fi : K) (npix : Int)
+    (hnp : 0 ≤ npix) (hc1 : bins.getD 0 0 ≤ cen) (hc2 : cen ≤ bins.getD (bins.length - 1) 0)
+    (hfi : fracIndex bins cen = .ok fi)
+    (hx1 : -(1/2) ≤ fi - (npix : K) / 2) (hx2 : fi + (npix : K) / 2 ≤ (bins.length : K) - 1/2) :
+    ∃ w1 w2, waveRange bins cen npix .none = .ok (w1, w2) ∧
+      pixelRange bins w1 w2 .none = .ok (npix : K) := by
+  rw [waveRange_eq_tail bins hasc h2 cen fi npix hc1 hc2 hfi hx1 hx2 .none]
+  have hnpK : (0 : K) ≤ (npix : K) := by exact_mod_cast hnp
+  obtain ⟨w1, w2, hw, hp⟩ := none_round_trip bins hasc h2 _ _ hx1 (by linarith) hx2
+  refine ⟨w1, w2, hw, ?_⟩
+  rw [hp]; congr 1; ring
+
+end
+
+
+/-! ## the order-independent claims, stated for either order of the bins -/
+
+theorem pixel_range_only_overlapError_either_order (bins : List K) (hv : StrictAsc bins ∨ StrictDesc bins)
+    (h2 : 2 ≤ bins.length) (a b : K) (mode : Mode) (e : Err) (he : pixelRange bins a b mode = .error e) :
+    e = .overlapError := by
+  rcases hv with hv | hv
+  · exact pixel_range_only_overlapError bins hv h2 a b mode e he
+  · rw [pixelRange_desc bins hv h2] at he
+    exact pixel_range_only_overlapError _ ((strictAsc_reverse bins).mpr hv) (by simpa using h2) a b mode e he
+
+theorem pixel_range_nonneg_either_order (bins : List K) (hv : StrictAsc bins ∨ StrictDesc bins)
+    (h2 : 2 ≤ bins.length) (a b v : K) (mode : Mode) (h : pixelRange bins a b mode = .ok v) : 0 ≤ v := by
+  rcases hv with hv | hv
+  · exact pixel_range_nonneg bins hv h2 a b v mode h
+  · rw [pixelRange_desc bins hv h2] at h
+    exact pixel_range_nonneg _ ((strictAsc_reverse bins).mpr hv) (by simpa using h2) a b v mode h
+
+theorem pixel_range_min_le_none_le_max_either_order (bins : List K) (hv : StrictAsc bins ∨ StrictDesc bins)
+    (h2 : 2 ≤ bins.length) (a b : K) (vmin vnone vmax : K) (h1 : pixelRange bins a b .min = .ok vmin)
+    (h3 : pixelRange bins a b .none = .ok vnone) (h4 : pixelRange bins a b .max = .ok vmax) :
+    vmin ≤ vnone ∧ vnone ≤ vmax := by
+  rcases hv with hv | hv
+  · exact pixel_range_min_le_none_le_max bins hv h2 a b vmin vnone vmax h1 h3 h4
+  · rw [pixelRange_desc bins hv h2] at h1 h3 h4
+    exact pixel_range_min_le_none_le_max _ ((strictAsc_reverse bins).mpr hv) (by simpa using h2) a b
+      vmin vnone vmax h1 h3 h4
+
+theorem wave_range_only_overlapError_either_order [FloorRing K] (bins : List K)
+    (hv : StrictAsc bins ∨ StrictDesc bins) (h2 : 2 ≤ bins.length) (cen : K) (npix : Int) (mode : Mode)
+    (hnp : 0 ≤ npix) (e : Err) (he : waveRange bins cen npix mode = .error e) : e = .overlapError := by
+  rcases hv with hv | hv
+  · exact wave_range_only_overlapError bins hv h2 cen npix mode hnp e he
+  · rw [waveRange_desc bins hv h2] at he
+    exact wave_range_only_overlapError _ ((strictAsc_reverse bins).mpr hv) (by simpa using h2) cen npix mode
+      hnp e he
+
+/-- descending example: same answer as on the reversed array -/
+example : ∃ v, pixelRange ([4, 2, 1] : List ℚ) (3/2) 3 .none = .ok v ∧ 0 ≤ v := by
+  rw [pixelRange_desc _ (by norm_num [StrictDesc]) (by simp)]
+  exact pixel_range_ok _ (by norm_num [StrictAsc]) (by simp) _ _ _ (by norm_num [minWave]) (by norm_num [maxWave])
+
+/-! ## non-vacuity: the hypotheses are satisfiable (irregular three-point array over ℚ), and the one
+case the ordering claim excludes really occurs -/
+
+example : minWave ([1, 2, 4] : List ℚ) = 1/2 ∧ maxWave ([1, 2, 4] : List ℚ) = 5 := by
+  norm_num [minWave, maxWave]
+
+example : ∃ v, pixelRange ([1, 2, 4] : List ℚ) (3/2) 3 .none = .ok v ∧ 0 ≤ v :=
+  pixel_range_ok _ (by norm_num [StrictAsc]) (by simp) _ _ _ (by norm_num [minWave]) (by norm_num [maxWave])
+
+example : pixelRange ([1, 2, 4] : List ℚ) (1/4) 3 .max = .error .overlapError :=
+  pixel_range_out_of_bounds _ (by norm_num [StrictAsc]) (by simp) _ _ _ (by left; norm_num [minWave])
+
+theorem fracIndex_example : fracIndex ([1, 2, 4] : List ℚ) 2 = .ok 1 := by
+  norm_num [fracIndex, argminAbs, argminAbsAux, pyIndex]
+
+example : ∃ w1 w2, waveRange ([1, 2, 4] : List ℚ) 2 1 .round = .ok (w1, w2) ∧
+    pixelRange ([1, 2, 4] : List ℚ) w1 w2 .round = .ok ((1 : Int) : ℚ) :=
+  round_trip_round _ (by norm_num [StrictAsc]) (by simp) 2 1 1 (le_refl _) (by norm_num) (by norm_num)
+    fracIndex_example (by norm_num) (by norm_num)
+
+example : ∃ w1 w2, waveRange ([1, 2, 4] : List ℚ) 2 3 .none = .ok (w1, w2) ∧
+    pixelRange ([1, 2, 4] : List ℚ) w1 w2 .none = .ok ((3 : Int) : ℚ) :=
+  round_trip_none _ (by norm_num [StrictAsc]) (by simp) 2 1 3 (by norm_num) (by norm_num) (by norm_num)
+    fracIndex_example (by norm_num) (by norm_num)
+
+theorem fracIndex_example2 : fracIndex ([1, 2, 3, 4] : List ℚ) (11/5) = .ok (6/5) := by
+  norm_num [fracIndex, argminAbs, argminAbsAux, pyIndex, divE, abs_lt, abs_of_pos, abs_of_neg, Int.toNat]
+
+theorem truncZ_example : truncZ (11/5 : ℚ) = 2 := by
+  have : ⌊(11/5 : ℚ)⌋ = 2 := by rw [Int.floor_eq_iff]; norm_num
+  simp [truncZ, this]; norm_num
+
+/-- the ordering claim of `wave_range_fits` cannot be extended to mode 'min' with `npix = 0` (which the
+argument validation accepts): the model — and `synphot.binning.wave_range(np.array([1.,2,3,4]), 2.2, 0,
+'min')` itself — returns the unordered pair (2.5, 1.5) -/
+theorem wave_range_min_npix0_unordered :
+    waveRange ([1, 2, 3, 4] : List ℚ) (11/5) 0 .min = .ok (5/2, 3/2) := by
+  rw [waveRange_eq_tail _ (by norm_num [StrictAsc]) (by simp) _ (6/5) 0 (by norm_num) (by norm_num)
+    fracIndex_example2 (by norm_num) (by norm_num)]
+  have e : ((6/5 : ℚ) - ((0 : Int) : ℚ) / 2 + 1) = 11/5 := by norm_num
+  have e' : ((6/5 : ℚ) + ((0 : Int) : ℚ) / 2 + 1) = 11/5 := by norm_num
+  simp only [waveTail, e, e', lowMin, highMin, fracZ, truncZ_example]
+  have h1 : ((11/5 : ℚ) - ((2 : Int) : ℚ) ≤ 1/2) := by norm_num
+  have h2 : ¬ ((11/5 : ℚ) - ((2 : Int) : ℚ) ≥ 1/2) := by norm_num
+  rw [if_pos h1, if_neg h2]
+  rw [sliceMean_two_int _ (2 : Int) (2 + 2) 2 rfl rfl (by simp [padded]),
+    sliceMean_two_int _ ((2 : Int) - 1) (2 + 1) 1 rfl rfl (by simp [padded])]
+  norm_num [midP, padded]
+
+
+/-! ## what is not proved
+
+-- NOT PROVED (closed instances of the string-level validation): `Mode.ofString?` lower-cases with
+--   `String.toLower`, which the kernel cannot evaluate, so `wave_range_invalid_mode`, `pixel_range_invalid_mode`,
+--   `wave_range_valid_args`, `pixel_range_valid_mode` carry the outcome of `Mode.ofString? s` as a hypothesis;
+--   which strings are accepted is exercised by the correspondence check only.
+-- NOT PROVED: `round_trip_round` for `npix = 0` (the statement
+--   `∃ w1 w2, waveRange bins cen 0 .round = .ok (w1, w2) ∧ pixelRange bins w1 w2 .round = .ok 0` holds in the
+--   model — the two limits coincide or are (last centre, last edge) — but needs a separate case analysis;
+--   `wave_range_fits` covers its finiteness/ordering/bounds part).
+-- NOT PROVABLE ON CURRENT CODE: `w1 ≤ w2` in mode 'min' with `npix = 0` — see `wave_range_min_npix0_unordered`.
+-- Outside the model: the unit wrappers `Observation.binned_waverange / binned_pixelrange` and binary64 rounding
+--   (checked by the harness only).
+-/
 
 end Synphot.C18
